@@ -115,38 +115,81 @@ class Pipelines:
         self.I = Interp(repo)
         self._results = None
 
-    def run(self):
-        if self._results is not None:
-            return self._results
-        repo, L, I = self.repo, self.L, self.I
-        res = OrderedDict()
+    STRUCT_NAMES = ("leader", "volume", "lines:signal", "lines:processed", "header")  # fed by the record layouts
+    NAMES = STRUCT_NAMES + ("summary",)
 
-        def call(modname, fname, arg):
-            f = I.resolve_global(repo.module(modname), fname)
-            try:
-                return I.call(f, [arg], {})
-            except _Raise as e:
-                raise AnalysisError(f"shape inference: {modname}:{fname} raises on the struct's own shape: {e.what}")
-            except RecursionError:
-                raise AnalysisError(f"shape inference: recursion limit in {modname}:{fname}")
+    def _call(self, modname, fname, arg):
+        repo, I = self.repo, self.I
+        f = I.resolve_global(repo.module(modname), fname)
+        try:
+            return I.call(f, [arg], {})
+        except _Raise as e:
+            raise AnalysisError(f"shape inference: {modname}:{fname} raises on the struct's own shape: {e.what}")
+        except RecursionError:
+            raise AnalysisError(f"shape inference: recursion limit in {modname}:{fname}")
 
-        res["leader"] = call("ceos_alos2.sar_leader.metadata", "transform_metadata", shape_of_con(L.con("leader")))
-        res["volume"] = call("ceos_alos2.volume_directory.metadata", "transform_record", shape_of_con(L.con("volume")))
-        for key in ("signal", "processed"):
-            rec = shape_of_con(L.con(key))
-            res[f"lines:{key}"] = call("ceos_alos2.sar_image.metadata", "transform_line_metadata", ListOf(rec, Poly.sym("n_lines")))
-        res["header"] = call("ceos_alos2.sar_image.metadata", "extract_attrs", shape_of_con(L.con("image_descriptor")))
-        self._results = res
-        return res
+    def get(self, name):
+        """result shape of one pipeline (computed on demand, once)"""
+        if self._results is None:
+            self._results = OrderedDict()
+        if name in self._results:
+            return self._results[name]
+        L = self.L
+        if name == "leader":
+            v = self._call("ceos_alos2.sar_leader.metadata", "transform_metadata", shape_of_con(L.con("leader")))
+        elif name == "volume":
+            v = self._call("ceos_alos2.volume_directory.metadata", "transform_record", shape_of_con(L.con("volume")))
+        elif name.startswith("lines:"):
+            rec = shape_of_con(L.con(name.split(":")[1]))
+            v = self._call("ceos_alos2.sar_image.metadata", "transform_line_metadata", ListOf(rec, Poly.sym("n_lines")))
+        elif name == "header":
+            v = self._call("ceos_alos2.sar_image.metadata", "extract_attrs", shape_of_con(L.con("image_descriptor")))
+        elif name == "summary":
+            v = self._call("ceos_alos2.summary", "transform_summary", summary_model())
+        else:
+            raise KeyError(name)
+        self._results[name] = v
+        return v
 
-    def schemas(self):
-        return OrderedDict((k, flatten(v)) for k, v in self.run().items())
+    def run(self, names=None):
+        return OrderedDict((n, self.get(n)) for n in (names or self.STRUCT_NAMES))
+
+    def schemas(self, names=None):
+        return OrderedDict((k, flatten(v)) for k, v in self.run(names).items())
+
+
+# the summary file: a model with every keyword the section transformers single out, one keyword per section that
+# goes through the section's default conversion, three images and two shape indices
+SUMMARY_MODEL = OrderedDict([
+    ("odi", ["SceneId", "Comment"]),
+    ("scs", ["SceneID", "SceneShift"]),
+    ("pds", ["ProductID", "ResamplingMethod", "UTM_ZoneNo", "MapDirection", "OrbitDataPrecision", "AttitudeDataPrecision", "PixelSpacing"]),
+    ("img", ["SceneCenterDateTime", "SceneStartDateTime", "OffNadirAngle"]),
+    ("pdi", ["ProductFormat", "BitPixel", "ProductDataSize", "CntOfL15ProductFileName",
+             "L15ProductFileName01", "L15ProductFileName02", "L15ProductFileName03", "L15ProductFileName04", "L15ProductFileName05", "L15ProductFileName06",
+             "NoOfPixels_0", "NoOfLines_0", "NoOfPixels_1", "NoOfLines_1", "NoOfPixels_2", "NoOfLines_2"]),
+    ("ach", ["TimeCheck", "AttitudeCheck"]),
+    ("rad", ["PracticeResultCode"]),
+    ("lbi", ["ObservationDate", "ProcessFacility", "Sensor"]),
+])
+
+
+def summary_model(order=None):
+    """shape of parse_summary's result for the model file: {section: {keyword: text}}; ``order`` permutes the keywords
+    of a section (the positional contract of the ProductFileName lines is another rule's business: they keep their order)"""
+    out = OrderedDict()
+    for sec, keys in SUMMARY_MODEL.items():
+        ks = list(keys)
+        if order is not None:
+            ks = order(sec, ks)
+        out[sec] = DictS(OrderedDict((k, Leaf("str", (sec, k))) for k in ks))
+    return DictS(out)
 
 
 def dump_reference(repo):
     p = Pipelines(repo)
     return {"_comment": "output schema with provenance, bootstrapped from the pinned commit by shape inference; see DESIGN.md E3",
-            "pipelines": p.schemas()}
+            "pipelines": p.schemas(p.NAMES)}
 
 
 def load_reference():
